@@ -26,6 +26,12 @@
                      refresh_logfiles() finds the current file gone it already positions read_idx ON the first
                      newer file; read() adds 1 regardless and passes over that file.  Intended: add 1 only if the
                      current file is still there.
+     "frac_ts"       write(data, timestamp) keeps the caller's float timestamp in its own file list (l.233/480) while the
+                     file NAME is that timestamp truncated to the microsecond; seek(pos) on the writing object compares
+                     the two (l.418) and, when the timestamp had a sub-microsecond fraction, takes the file for "the next
+                     one past pos": the offset is dropped and the file is delivered again from its start.  Intended: the
+                     list holds the truncated value, as scan_logfiles() would compute it.  Labels: y >= 100 stands for
+                     "timestamp y - 100 plus a fraction of a microsecond".
    With Defects = {} TLC proves the C13 formulas below; with a defect switched on it exhibits the counterexample. *)
 EXTENDS Integers, Sequences, FiniteSets, TLC, FiniteSetsExt, SequencesExt     \* ...Ext: CommunityModules (folds, sorting)
 
@@ -56,7 +62,8 @@ VARIABLES
   nino,         \* number of inodes allocated
   recsz,        \* Seq(size): recsz[k] is the size of the k-th record written
   clock,        \* "now" (time(), datetime.now): may advance, stand still, step back
-  lf,           \* [Objs -> Seq([ts, sz])]  self.logfiles: the object's own view of the file list
+  lf,           \* [Objs -> Seq([ts, sz, fr])]  self.logfiles: the object's own view of the file list; fr: the entry's
+                \*                          float timestamp is later than the microsecond in the name ("frac_ts")
   ridx,         \* [Objs -> Nat]            self.read_idx (0-based; Len(lf) = at end)
   rf,           \* [Objs -> [ino, off, buf]] self.read_file: open inode + offset (tell()) + cells sitting in the file
                 \*                          object's read buffer; ino = 0: None
@@ -92,7 +99,7 @@ NewestSizeOf(d, dt) == LET S == {t \in TsAll : d[t] # 0} IN IF S = {} THEN 0 ELS
 AscSeq(S) == SetToSortSeq(S, LAMBDA a, b : a < b)
 
 (* scan_logfiles (l.482-496): list the directory, timestamp from the name, size from stat, sorted. *)
-ScanLF == LET s == AscSeq(Names) IN [i \in 1..Len(s) |-> [ts |-> s[i], sz |-> SizeOf(s[i])]]
+ScanLF == LET s == AscSeq(Names) IN [i \in 1..Len(s) |-> [ts |-> s[i], sz |-> SizeOf(s[i]), fr |-> FALSE]]
 SumSz(l) == FoldSeq(LAMBDA e, acc : acc + e.sz, 0, l)
 
 (* file.read() / file.readline() on an open file f = [ino, off, buf] (l.324).  readline returns up to and including
@@ -189,7 +196,9 @@ Write(sz, t) ==
   /\ ~closed[W] /\ Len(recsz) < MaxWrites
   /\ t # 0 => wfile = 0                          \* the timestamp is only looked at when a file is created (l.228-233)
   /\ LET id   == Len(recsz) + 1
-         ts0  == IF t = 0 THEN clock ELSE t
+         frac == t >= 100                          \* a caller-given timestamp with a sub-microsecond fraction
+         tg   == IF frac THEN t - 100 ELSE t
+         ts0  == IF tg = 0 THEN clock ELSE tg
          new  == wfile = 0
          \* new_logfile (l.473-480); intended design: never a timestamp <= the newest known file's
          nts  == IF "overwrite" \in Defects \/ lf[W] = <<>> \/ ts0 > Last(lf[W]).ts THEN ts0 ELSE Last(lf[W]).ts + 1
@@ -198,9 +207,10 @@ Write(sz, t) ==
          old  == IF exi THEN data[ino] ELSE <<>>                                  \* content lost by truncation
          dir1 == IF new THEN [dir EXCEPT ![nts] = ino] ELSE dir
          cont == (IF new THEN <<>> ELSE data[ino]) \o [i \in 1..sz |-> id]        \* l.242
-         lf1  == IF new THEN Append(lf[W], [ts |-> nts, sz |-> 0]) ELSE lf[W]     \* l.240
+         lf1  == IF new THEN Append(lf[W], [ts |-> nts, sz |-> 0, fr |-> frac /\ "frac_ts" \in Defects])
+                 ELSE lf[W]                                                        \* l.240
          cur  == Last(lf1)
-         lf2  == [lf1 EXCEPT ![Len(lf1)] = [ts |-> cur.ts, sz |-> cur.sz + sz]]   \* l.244
+         lf2  == [lf1 EXCEPT ![Len(lf1)] = [cur EXCEPT !.sz = @ + sz]]              \* l.244
          tot2 == total + sz                                                       \* l.245
          p    == IF tot2 > tsz THEN PruneOf(lf2) ELSE [cut |-> 0, total |-> tot2] \* l.247
          unl  == {lf2[j].ts : j \in 1..p.cut}                                     \* l.509, l.517 unlink by name
@@ -258,7 +268,7 @@ SeekTo(o, p) ==
   ELSE LET cand == {i \in 1..n : l[i].ts >= p.ts} IN                              \* l.417-421 first entry not older
        IF cand = {} THEN [ridx |-> n, rf |-> NoFile]                              \* l.435
        ELSE LET i == Min(cand) IN
-            IF l[i].ts > p.ts THEN [ridx |-> i - 1, rf |-> NoFile]                \* l.418 next existing file
+            IF l[i].ts > p.ts \/ l[i].fr THEN [ridx |-> i - 1, rf |-> NoFile]     \* l.418 next existing file
             ELSE IF dir[p.ts] # 0 THEN [ridx |-> i - 1, rf |-> [ino |-> dir[p.ts], off |-> p.off, buf |-> <<>>]]   \* l.423-431
                  ELSE [ridx |-> i, rf |-> NoFile]                                 \* l.424 vanished: the one after
 Seek(o, how) ==    \* how: 0 = ('start', 0), 1 = ('end', 0), 2 = the saved position
@@ -327,6 +337,7 @@ Tick(t) ==
 Lab(a, o, x, y) == [a |-> a, o |-> o, x |-> x, y |-> y]
 Labels ==
        {Lab("write", W, s, t) : s \in Sizes, t \in 0..MaxTs}
+  \cup (IF "frac_ts" \in Defects /\ W \in Active THEN {Lab("write", W, s, 100 + t) : s \in Sizes, t \in 1..MaxTs} ELSE {})
   \cup {Lab(a, o, 0, 0) : a \in {"read", "readblock", "tell", "close", "reopen"}, o \in Objs}
   \cup {Lab("seek", o, h, 0) : o \in Objs, h \in 0..2}
   \cup {Lab("refresh", o, 0, 0) : o \in Readers}
